@@ -23,8 +23,8 @@ def plan(tier, seed):
         timeout=2400 if quick else 10 * 3600,
         rule=("UCI sessions as in C05 restricted to Threads 2..8 and short searches (depth <= 5), with commands during a search "
               "over-weighted (setoption / isready / ucinewgame / Clear Hash / Hash resize / ponderhit / stop / quit / EOF while "
-              "helper threads run), every fifth session a tablebase hand-over (a 3-man root searched without limit so that the on-demand table "
-              "is generated, then 1..3 searches from roots with one more, capturable man, Threads 2..4), every fifth a worker-tree churn "
+              "helper threads run), every sixth session a tablebase hand-over (a 3-man root searched without limit so that the on-demand table "
+              "is generated, then 1..3 searches from roots with one more, capturable man, Threads 2..4), every sixth a ponder/ponderhit session on roots with one legal move, every sixth a worker-tree churn "
               "(Threads 6..8, 12 or 16; 4..10 short searches with Threads / Strength / UCI_LimitStrength changes in between, so that the two-level "
               "helper tree is torn down and rebuilt), "
               "executed on the ThreadSanitizer build of the engine; plus in-process ProofGameFilter.filterFens "
@@ -33,7 +33,8 @@ def plan(tier, seed):
               "with >= 2 workers and >= 4 FENs."),
         floors={"protocol command while >=2 engine threads were searching": 40, "proof-game filter run": 8,
                 "tablebase hand-over session (resident on-demand table probed from a larger root)": 6 if quick else 300,
-                "worker-tree churn session (Threads >= 6, thread count changes between searches)": 6 if quick else 300},
+                "worker-tree churn session (Threads >= 6, thread count changes between searches)": 6 if quick else 300,
+                "ponder / ponderhit session on forced-move roots": 5 if quick else 250},
         assumptions=["oracle = ThreadSanitizer happens-before analysis (halt_on_error, exit code 66) on the interleavings the OS produced in this run",
                      "no suppressions file is used",
                      "libstdc++ internals (iostream state) are not instrumented",
